@@ -66,7 +66,7 @@ pub fn run(ctx: &mut Ctx) {
         let mut r = crate::rng::Rng::new(ctx.seed ^ 0xC11);
         let mut t = three;
         r.shuffle(&mut t);
-        pols.extend(t.into_iter().take((200.0 * ctx.scale).ceil() as usize));
+        pols.extend(t.into_iter().take((1000.0 * ctx.scale).ceil() as usize));
     } else {
         pols.extend(three);
     }
